@@ -21,9 +21,17 @@ func c16Gen(r *Rand, tier string, emit func(op any)) {
 	genEncOps(r, n/2, true, 15, 20, 3, 6, emit)
 	genEncOps(r, n/4, true, 70, 60, 2, 4, emit)
 	genEncOps(r, n/4, true, 0, 0, 1, 2, emit) // few or no fields: exercises the metadata presence patterns
+	c16GenCfg(r, tier, emit)
 }
 
 func c16Exec(raw json.RawMessage) Result {
+	var kind struct {
+		K string `json:"k"`
+	}
+	unmarshal(raw, &kind)
+	if kind.K == "cfgpath" {
+		return c16ExecCfg(raw)
+	}
 	var op encOp
 	unmarshal(raw, &op)
 	line, _, pmsg := encRun(&op)
